@@ -51,23 +51,23 @@ class C05(Prop):
                   "written-before-read and no fabrication on trace positions). C05_spec_ok_on_model_partial2 adds, again for every case: the final "
                   "sequential read is duplicate-free and every value of it is in the push table with a slot-write position; claim positions "
                   "strictly increase along every slice, thread slices and final read (S4; per-block claim ledger) - i.e. all of spec_run except "
-                  "S3 and S5. C05_spec_ok_on_model_needs_size_bound: the unconditioned statement is false (oracle: final_data has fuel 400). "
+                  "S3 and S5. C05_final_read_finishes: with the state-derived fuel Exec.final_fuel the final reader always completes when all threads "
+                  "are done and returns exactly the published slots of the live chain; C05_spec_conservation_on_model: clause S5 (pushes = cleared "
+                  "+ final, no duplicate, same number) on the model's run of every case outside the late-claim class when the run is done. "
                   "The open finding is a theorem "
                   "(C05_late_claim_refutes) and so are the two repaired defects (the model of the code before each fix violates spec_ok outside "
                   "the late-claim class, the model after the fix does not). Tied to /repo by (i) replaying generated schedules on the real "
                   "AtomicBucket<Val> through yield points at every shared-memory access and comparing step trace, every slice handed to every "
                   "callback, every is_empty result and a final sequential read, with the executable property spec_ok evaluated on the "
                   "implementation's outputs, and (ii) a free-running stress engine on real threads judged by the same property.")
-    level_note = ("NOT proved: C05_spec_ok_on_model. As stated without a size bound it is FALSE (C05_spec_ok_on_model_needs_size_bound: Exec.final_data "
-                  "gives the final reader 400 rounds of fuel; with a live chain of more than ~133 blocks, i.e. 8700 pushes, the model's final read "
-                  "does not finish and S5 fails although done = true and known_class = None - a finding about the oracle, far above generated sizes; "
-                  "the real driver's final data() has no such bound). Of the trace-level checker spec_ok, proved on the model's run of every case "
-                  "is everything except S3 and S5 (C05_spec_ok_on_model_partial2: S0, S1, S2, S4 for thread slices and the final read). Missing: S3 "
-                  "(snapshot / is_empty completeness on trace positions, under done) and S5 (pushes = cleared + final, under done, known_class = "
-                  "None and a size bound): the configuration-level theorems exist (C05_snapshot_sees_completed, C05_is_empty_sound, "
-                  "C05_conservation_except_late_claim) but are not yet connected to the checker's 503 / 530 / 520 / 541 position tables; those two "
-                  "clauses are tied to the theorems only by evaluation (spec_ok on every replayed schedule, model agreeing step by step, and the "
-                  "stress oracle). C05_is_empty_sound needs at most B threads for its strong reading; with more, is_empty = true can miss "
+    level_note = ("NOT proved: the conjunction C05_spec_ok_on_model. Of the trace-level checker spec_ok, proved on the model's run are all clauses "
+                  "except S3: S0, S1, S2, S4 for every case (C05_spec_ok_on_model_partial2) and S5 for every case outside the late-claim class "
+                  "whose run is done (C05_spec_conservation_on_model). Missing: S3 (snapshot / is_empty completeness on trace positions, under "
+                  "done): C05_snapshot_sees_completed and C05_is_empty_sound exist at configuration level but the 503 / 530 / 520 / 541 positions "
+                  "and empty_end are not yet in a trace ledger; that clause is tied to the theorems only by evaluation (spec_ok on every replayed "
+                  "schedule, model agreeing step by step, and the stress oracle). Corrected oracle defect: Exec.final_data used to give the final "
+                  "reader a constant 400 rounds; a live chain above ~133 blocks made the model return final = []; the fuel is now 4 * blocks + 8, "
+                  "proved sufficient (regression C05_oversized_final_read_regression). C05_is_empty_sound needs at most B threads for its strong reading; with more, is_empty = true can miss "
                   "completed pushes deeper than the head's successor (stated in the theorem). "
                   "The conservation theorem speaks about "
                   "configurations (slots, ownership, per-thread delivered lists); its reading as 'completed = delivered (+) resident' uses "
